@@ -76,9 +76,11 @@ func sameResult(a, b *strace.Result) string {
 }
 
 // game plays one game in lock step on three engines:
-//   A: soft node limits, recording the node count N_i each search ended with
-//   B: the same requests replayed with hard budgets N_i
-//   C: A's requests repeated
+//
+//	A: soft node limits, recording the node count N_i each search ended with
+//	B: the same requests replayed with hard budgets N_i
+//	C: A's requests repeated
+//
 // After every move results, info lines (time stripped) and state digests must agree.
 func game(r *ev.Run, wk int, w *witness, verbose bool) (ok bool) {
 	start := ref.MustFEN(w.Start)
